@@ -483,7 +483,18 @@ fn gen_packet(r: &mut Rng) -> (Packet, RPacket) {
         }
     };
     let kinds = [OptionType::BlockSize, OptionType::TransferSize, OptionType::Timeout, OptionType::Windowsize];
-    let vals: [u64; 9] = [0, 1, 9, 10, 65464, 1 << 32, 1 << 63, u64::MAX, 12345];
+    // values around every power of ten and of two (digit-count and width boundaries), plus a few ordinary ones
+    let mut vals: Vec<u64> = vec![0, 1, 9, 10, 65464, 1 << 32, 1 << 63, u64::MAX, 12345];
+    for k in 1..=19u32 {
+        let p = 10u64.pow(k);
+        for d in [-22i64, -2, -1, 0, 1] {
+            vals.push(p.wrapping_add(d as u64));
+        }
+    }
+    for k in 1..64u32 {
+        let p = 1u64 << k;
+        vals.extend([p - 1, p, p + 1]);
+    }
     let gen_opts = |r: &mut Rng| -> Vec<TransferOption> {
         let n = if r.chance(40) { r.range(15, 70) } else { r.range(0, 6) };
         (0..n)
